@@ -341,6 +341,24 @@ def corrupt_trace(evs):
     return None, None
 
 
+def chars(u):
+    return list(u)
+
+
+def known_finding_scenario(prop):
+    """the listed known finding (wamp.session.kill_all is silent) is met on purpose in every run of a check that lists it, so
+    that the check reports it as KNOWN-FINDING each time - and notices if it ever goes away or changes its shape"""
+    j = lambda a: {"authid": a, "color": "", "feats": [], "local": True, "q": 0, "tr": ""}
+    cfg = {"strict": False, "disclose": False, "metakill": True, "hcfg": [], "users": [{"id": "alice", "role": "user"}], "authz": [], "lauthz": False,
+           "late": False, "template": False, "closed": False, "auth": {"anon": True, "methods": ["ticket"], "lauth": False, "crtmo": 60000}}
+    steps = [{"op": "join", "s": "s1", "join": j("u1")}, {"op": "join", "s": "s2", "join": j("u2")},
+             {"op": "subscribe", "s": "s1", "req": 3, "uri": chars("wamp."), "o": {"match": "prefix"}},
+             {"op": "subscribe", "s": "s1", "req": 4, "uri": chars("a.b"), "o": {"match": ""}},
+             {"op": "metacall", "s": "s2", "req": 5, "uri": chars("wamp.session.add_testament"), "uri2": chars("a.b"), "tag": "T5", "how": ""},
+             {"op": "metacall", "s": "s1", "req": 6, "uri": chars("wamp.session.kill_all")}]
+    return {"id": "%s.known.0001" % prop, "cfg": cfg, "steps": steps, "epilogue": True}
+
+
 def combine_realms(scns, seed, prop):
     """C11: two or three independently generated single-realm scenarios run
     simultaneously in one router, with identical URIs and colliding ids; the
@@ -486,8 +504,12 @@ def run_core(prop, spec, tier, seed, work, replay):
                 s["epilogue"] = True
                 s["poison"] = bool(spec.get("poison"))
             scns += part
+        if known and not spec.get("realms"):
+            scns.append(known_finding_scenario(prop))
         if spec.get("realms"):
             scns = combine_realms(scns, seed, prop)
+            if known:
+                scns.append(known_finding_scenario(prop))
         if spec.get("crashpoints"):
             scns = crashpoint_variants(scns, seed, prop)
     byid = {s["id"]: s for s in scns}
